@@ -757,3 +757,231 @@ func isFreshArith(v ssa.Value) bool {
 	_, isNew := call.Call.Args[0].(*ssa.Alloc)
 	return isNew
 }
+
+func init() {
+	extendProp("C34", "Storage-trie updates precede deletions within one flush: in updateTrie no UpdateStorage can execute after a DeleteStorage, so which nodes are resolved (and end up in the witness) does not depend on map iteration order.", nil, func(c *Ctx) {
+		c.Rule("ORDER/C34.updatesfirst")
+		cst := "core/state"
+		f := c.Fn(cst, "(*stateObject).updateTrie")
+		if f == nil {
+			return
+		}
+		c.Funcs[f] = true
+		ups := c.Calls(f, "(core/state.Trie).UpdateStorage")
+		dels := c.Calls(f, "(core/state.Trie).DeleteStorage")
+		c.Expect(1, len(ups), "UpdateStorage in updateTrie")
+		c.Expect(1, len(dels), "DeleteStorage in updateTrie")
+		for _, d := range dels {
+			bad := ""
+			for _, u := range ups {
+				if instrReaches(d.Instr, u.Instr) {
+					bad = c.pos(u.Pos())
+				}
+			}
+			c.Check(bad == "", "no-update-after-delete/"+fnName(f), d.Pos(), "every update has been applied before the first deletion", "a slot update (at "+bad+") can run after a deletion: a deletion applied first collapses a two-child branch and resolves the sibling from disk, which the opposite order never touches — the witness collected in one order is insufficient for a re-execution that iterates the map in another")
+		}
+	})
+
+	extendProp("C35", "The excess blob gas of a header is computed under the rules of the fork that header belongs to: inside CalcExcessBlobGas every fork predicate and the blob-schedule lookup take the head timestamp parameter, never the parent's time.", nil, func(c *Ctx) {
+		c.Rule("SAMEVAL/C35.forkselect")
+		ep := "consensus/misc/eip4844"
+		f := c.Fn(ep, "CalcExcessBlobGas")
+		if f == nil {
+			return
+		}
+		c.Funcs[f] = true
+		n := 0
+		eachInstr(f, func(in ssa.Instruction) {
+			call, ok := in.(*ssa.Call)
+			if !ok {
+				return
+			}
+			cal := call.Call.StaticCallee()
+			if cal == nil {
+				return
+			}
+			nm := cal.Name()
+			isFork := recvNamed(cal) == modPrefix+"params.ChainConfig" && len(nm) > 2 && nm[:2] == "Is" && cal.Signature.Params().Len() == 2
+			isSched := nm == "latestBlobConfig"
+			if !isFork && !isSched {
+				return
+			}
+			n++
+			a := call.Call.Args[len(call.Call.Args)-1]
+			c.Check(Param("headTimestamp")(a), "head-time/"+nm, in.Pos(), "decided by the head timestamp", "CalcExcessBlobGas selects "+nm+" by something other than the head timestamp: on the first block of the fork the client computes (and demands) the previous fork's formula")
+		})
+		c.Expect(2, n, "fork/schedule selections in CalcExcessBlobGas")
+	})
+
+	extendProp("C37", "The estimator never mutates the caller's state: the balance it subtracts the value and blob fees from is a Clone() of State.GetBalance, not the state object's own integer.", nil, func(c *Ctx) {
+		c.Rule("IMMUT/C37.balance")
+		f := c.Fn("eth/gasestimator", "Estimate")
+		if f == nil {
+			return
+		}
+		c.Funcs[f] = true
+		u := "(*github.com/holiman/uint256.Int)."
+		n := 0
+		for _, s := range c.Calls(f, u+"Sub|"+u+"Add|"+u+"Mul|"+u+"Div|"+u+"Set") {
+			recv := s.Instr.(*ssa.Call).Call.Args[0]
+			// does the receiver alias the state's balance?
+			seen := map[ssa.Value]bool{}
+			var aliasesState func(v ssa.Value) bool
+			aliasesState = func(v ssa.Value) bool {
+				if v == nil || seen[v] {
+					return false
+				}
+				seen[v] = true
+				switch x := v.(type) {
+				case *ssa.Call:
+					nm := calleeName(&x.Call)
+					if strings.HasSuffix(nm, ").GetBalance") {
+						return true
+					}
+					if strings.HasPrefix(nm, u) && !strings.HasSuffix(nm, ").Clone") && len(x.Call.Args) > 0 {
+						// in-place arithmetic returns its receiver
+						if res := x.Call.StaticCallee().Signature.Results(); res.Len() == 1 && types.Identical(res.At(0).Type(), x.Call.Args[0].Type()) {
+							return aliasesState(x.Call.Args[0])
+						}
+					}
+				case *ssa.Phi:
+					for _, e := range x.Edges {
+						if aliasesState(e) {
+							return true
+						}
+					}
+				}
+				return false
+			}
+			if _, isAlloc := recv.(*ssa.Alloc); isAlloc {
+				continue
+			}
+			n++
+			c.Check(!aliasesState(recv), "own-copy/"+fnName(f), s.Pos(), "arithmetic is done on the estimator's own copy", "Estimate does in-place arithmetic on the integer returned by State.GetBalance: the sender's balance in the caller's state is reduced by the transfer value, every probe then double-charges it and the estimate fails (and the pre-state stays mutated)")
+		}
+		c.Expect(1, n, "in-place balance arithmetic in Estimate")
+	})
+
+	extendProp("C38", "A log slice handed to event subscribers is never reused as a buffer: reorg does not re-slice its removed/reborn log buffers to length zero (it drops them), so logs collected afterwards cannot overwrite an event already delivered.", nil, func(c *Ctx) {
+		c.Rule("ALIAS/C38.logbuffers")
+		f := c.Fn("core", "(*BlockChain).reorg")
+		if f == nil {
+			return
+		}
+		c.Funcs[f] = true
+		bad := 0
+		eachInstr(f, func(in ssa.Instruction) {
+			sl, ok := in.(*ssa.Slice)
+			if !ok || sl.High == nil || !constIs(sl.High, 0) {
+				return
+			}
+			if st, ok := sl.X.Type().Underlying().(*types.Slice); ok {
+				if n := derefNamed(st.Elem()); n != nil && n.Obj().Name() == "Log" {
+					bad++
+					c.Bad("no-buffer-reuse/"+fnName(f), in.Pos(), "reorg truncates a log buffer with [:0] after it was sent to subscribers: the delivered event shares its backing array with the buffer and is overwritten by the logs of the following blocks")
+				}
+			}
+		})
+		if bad == 0 {
+			c.OK("no-buffer-reuse/"+fnName(f), f.Pos(), "log buffers are dropped, not re-sliced, after being sent")
+		}
+		sends := c.Calls(f, "(*event.FeedOf[T]).Send|(*event.Feed).Send")
+		c.Check(len(sends) >= 2, "sends/"+fnName(f), f.Pos(), "reorg sends removed and reborn log events", "reorg no longer sends the removed/reborn log events")
+	})
+
+	extendProp("C39", "State-history tail truncation never passes the persisted state: truncateFromTail in writeHistory lies behind a comparison of the state id read from the database (not an in-memory counter) with the new first history.", []string{"triedb/pathdb"}, func(c *Ctx) {
+		c.Rule("ORDER/C39.historytail")
+		pdb := "triedb/pathdb"
+		w := c.Fn(pdb, "(*diskLayer).writeHistory")
+		if w == nil {
+			return
+		}
+		tt := c.Calls(w, pdb+".truncateFromTail")
+		c.Dom("tail-below-persisted", w, tt, "truncateFromTail",
+			GCond("persistentID>=newFirst", w, Cmp(CallRes("core/rawdb.ReadPersistentStateID"), token.GEQ, Any())))
+	})
+
+	extendProp("C40", "Unindexing an epoch also drops its maps from the render cache: the deletion callback of deleteTailEpoch removes the epoch's maps from filterMapCache (the renderer skips rows equal to the cached copy, so a stale cached map would never be written back).", nil, func(c *Ctx) {
+		c.Rule("PAIR/C40.tailcache")
+		fm := "core/filtermaps"
+		f := c.Fn(fm, "(*FilterMaps).deleteTailEpoch")
+		if f == nil {
+			return
+		}
+		n := 0
+		for _, cl := range allClosures(f) {
+			rows := c.Calls(cl, "core/rawdb.DeleteFilterMapRows")
+			if len(rows) == 0 {
+				continue
+			}
+			n++
+			c.Funcs[cl] = true
+			var rm []Site
+			for _, s := range c.Calls(cl, "*.Remove") {
+				if matchField(fieldOfLoad(s.Instr.(*ssa.Call).Call.Args[0]), fm+".FilterMaps.filterMapCache") {
+					rm = append(rm, s)
+				}
+			}
+			// the eviction sits in a loop over the epoch's maps, so it is not on *every* path (an empty
+			// epoch skips it); what is decided: it exists, inside a loop, behind the successful row deletion
+			ok := false
+			for _, r := range rm {
+				if innermostLoopHeader(cl, r.Instr.Block()) != nil && instrReaches(rows[0].Instr, r.Instr) {
+					ok = true
+				}
+			}
+			c.Check(ok, "rows-and-cache/"+fnName(cl), rows[0].Pos(), "the epoch's maps are evicted from the render cache in a loop after their rows were deleted", "deleteTailEpoch deletes an epoch's rows without evicting its maps from filterMapCache: when the epoch is rendered again the renderer finds the rows equal to the stale cached map and never writes them back, so indexed searches silently miss the logs of those maps")
+		}
+		c.Expect(1, n, "row deletion callback in deleteTailEpoch")
+	})
+
+	extendProp("C41", "The nonce heap of a transaction list never keeps nonces whose transactions were filtered out: every use of the non-reheaping SortedMap.filter in the pool is followed by reheap() on all paths to the function's return.", nil, func(c *Ctx) {
+		c.Rule("PAIR/C41.reheap")
+		lp := "core/txpool/legacypool"
+		n := 0
+		for _, f := range c.AllFuncs(lp) {
+			if recvNamed(f) == modPrefix+lp+".SortedMap" {
+				continue // the map's own methods compose filter+reheap themselves
+			}
+			fl := c.Calls(f, "(*"+lp+".SortedMap).filter")
+			if len(fl) == 0 {
+				continue
+			}
+			n++
+			var rets []Site
+			for _, r := range c.Returns(f) {
+				if r.Instr.Block() != f.Recover {
+					rets = append(rets, r)
+				}
+			}
+			c.Followed("filter-then-reheap", f, fl, "txs.filter(...)", c.Calls(f, "(*"+lp+".SortedMap).reheap"), "txs.reheap()", rets)
+		}
+		c.Expect(1, n, "users of the raw SortedMap.filter")
+	})
+
+	extendProp("C42", "Pulling a blob out of the limbo removes its store id from its block's group: in getAndDrop every successful return lies behind delete(l.groups[block], id), so a later finalize of that block cannot delete a store slot that has been reused.", nil, func(c *Ctx) {
+		c.Rule("PAIR/C42.limbogroup")
+		bp := "core/txpool/blobpool"
+		f := c.Fn(bp, "(*limbo).getAndDrop")
+		if f == nil {
+			return
+		}
+		c.Funcs[f] = true
+		var inner []Site
+		eachInstr(f, func(in ssa.Instruction) {
+			call, ok := in.(*ssa.Call)
+			if !ok {
+				return
+			}
+			b, ok := call.Call.Value.(*ssa.Builtin)
+			if !ok || b.Name() != "delete" {
+				return
+			}
+			lk, ok := call.Call.Args[0].(*ssa.Lookup)
+			if ok && matchField(fieldOfLoad(lk.X), bp+".limbo.groups") && Param("id")(call.Call.Args[1]) {
+				inner = append(inner, Site{f, in})
+			}
+		})
+		c.Dom("id-leaves-group", f, c.SuccessReturns(f), "blob pulled", GSites("delete(l.groups[item.Block], id)", inner))
+	})
+}
